@@ -146,8 +146,8 @@ var cacheTypes = []string{"cds", "eds", "rds"}
 
 // output is everything the three cacheable generators hand to one proxy.
 type output struct {
-	order map[string][]string          // type -> resource names in response order
-	res   map[string]map[string][]byte // type -> name -> type URL + serialized resource
+	order map[string][]string                       // type -> resource names in response order
+	res   map[string]map[string][]byte              // type -> name -> type URL + serialized resource
 	ptr   map[string]map[string]*discovery.Resource // type -> name -> the object handed out (identifies a cache entry)
 	hits  map[string]int
 	total map[string]int // resources that went through the cache lookup
